@@ -4,13 +4,21 @@ package main
 // Real code under test: path/filepath (model validation), DirectoryBackend.osPath and the directory
 // backend on a deep sandbox, keystore v1 on a recording in-memory Storage + recording cache,
 // keystore v2 on a recording in-memory backend.
+// Confinement oracle: EVERY path the real osPath / backend accepts must start with the cleaned root
+// followed by a separator (func under). Boundary tables (c07SiblingPaths/IDs, c07V1SiblingIDs) derive,
+// from the root's own base name, the ".." shapes that re-enter a SIBLING directory whose name starts
+// with the root's name (<root>-old, <root>.bak, <root>2; '/' and '\\'); they go through osPath, the
+// sandboxed directory backend (whose parent and sibling directories hold decoys and are compared with
+// a snapshot after every operation) and the v2/v1 key store entry points (generate/read/export/destroy).
 
 import (
 	"bytes"
 	"fmt"
 	"os"
 	"path/filepath"
+	"sort"
 	"strings"
+	"time"
 
 	"acra-vh/vh"
 	"acra-vh/vhks"
@@ -18,10 +26,12 @@ import (
 	"github.com/cossacklabs/acra/keystore"
 	"github.com/cossacklabs/acra/keystore/filesystem"
 	keystoreV2 "github.com/cossacklabs/acra/keystore/v2/keystore"
+	apiV2 "github.com/cossacklabs/acra/keystore/v2/keystore/api"
 	"github.com/cossacklabs/acra/keystore/v2/keystore/asn1"
 	cryptoV2 "github.com/cossacklabs/acra/keystore/v2/keystore/crypto"
 	fsV2 "github.com/cossacklabs/acra/keystore/v2/keystore/filesystem"
 	"github.com/cossacklabs/acra/keystore/v2/keystore/filesystem/backend"
+	backendAPI "github.com/cossacklabs/acra/keystore/v2/keystore/filesystem/backend/api"
 	"github.com/cossacklabs/acra/keystore/v2/keystore/signature"
 	"github.com/cossacklabs/themis/gothemis/core"
 )
@@ -31,7 +41,8 @@ func init() { register("c07", "Model.RunKeystore", runC07) }
 const v1Dir = "/ks/private"
 
 var pathComps = []string{"", ".", "..", "a", "b1", "ks", "x.y", "...", "..a", "c\\d", "client", "storage"}
-var hostileIDs = []string{"../../outside", "..", "a/b/../../../x", "../x", "../../etc/cron.d/x", "aaaaa/../../b", "", "abc", "x\\..\\y", "/etc/passwd", "ok/../..", "idé-unicode", ".....", "a..b.", "clie/nt"}
+var hostileIDs = []string{"../../outside", "..", "a/b/../../../x", "../x", "../../etc/cron.d/x", "aaaaa/../../b", "", "abc", "x\\..\\y", "/etc/passwd", "ok/../..", "idé-unicode", ".....", "a..b.", "clie/nt",
+	"../private-old/x", "../private.bak", "../private2/y", "..\\private-old\\x", "../private"}
 var goodIDs = []string{"client_1", "client-two", "Client 3", "zzzzz", "client_1x"}
 
 func genPath(r *vh.Rng) string {
@@ -56,17 +67,80 @@ func genID(rep *vh.Report, r *vh.Rng) string {
 	return goodIDs[r.Intn(len(goodIDs))]
 }
 
+// c07Abs resolves a path lexically against a deep virtual working directory (relative roots of the
+// path tables stay comparable; the directory is deeper than any ".." run the generators produce).
+const c07Cwd = "/c01/c02/c03/c04/c05/c06/c07/c08/c09/c10/c11/c12/c13/c14/c15/c16"
+
+func c07Abs(p string) string {
+	if filepath.IsAbs(p) {
+		return filepath.Clean(p)
+	}
+	return filepath.Join(c07Cwd, p)
+}
+
+// under: the OS path `full` lies STRICTLY below the directory `root`: after cleaning it starts with
+// the cleaned root followed by a path separator (a sibling "<root>-old" shares the string prefix
+// "<root>" but not "<root>/") and names something more than the root itself.
 func under(root, full string) bool {
-	root = filepath.Clean(root)
-	rel, err := filepath.Rel(root, full)
-	return err == nil && rel != "." && rel != ".." && !strings.HasPrefix(rel, "../")
+	sep := string(os.PathSeparator)
+	r, f := c07Abs(root), c07Abs(full)
+	if r == sep {
+		return f != sep && strings.HasPrefix(f, sep)
+	}
+	return strings.HasPrefix(f, r+sep) && len(f) > len(r)+1
+}
+
+// ---------- boundary tables: sibling directories whose name starts with the root's name ----------
+// A containment test written as a string-prefix test without the trailing separator accepts exactly
+// these: ".." components that leave the root and re-enter "<root><suffix>".
+var c07SiblingSuffixes = []string{"-old", ".bak", "2"}
+
+// key paths (relative to a root directory named rootName)
+func c07SiblingPaths(rootName string) []string {
+	var out []string
+	for _, sfx := range c07SiblingSuffixes {
+		s := rootName + sfx
+		for _, p := range []string{"../" + s + "/x", "../" + s, "../" + s + "/y", "../" + s + "/decoy", "a/../../" + s + "/x", "client/../../" + s + "/storage.keyring", "./..//" + s + "/decoy"} {
+			out = append(out, p, strings.ReplaceAll(p, "/", "\\"))
+		}
+		out = append(out, "..\\"+s+"/x")
+	}
+	// controls: the root itself, re-entering the root, a shorter / unrelated sibling, plain escapes
+	out = append(out, "../"+rootName, "../"+rootName+"/x", "..\\"+rootName+"\\x", "../other/x", "..", "../..", "../../escaped", "a/../../escaped", "x", "client/x/storage.keyring")
+	if len(rootName) > 1 {
+		out = append(out, "../"+rootName[:len(rootName)-1]+"/x")
+	}
+	return out
+}
+
+// client ids for the v2 key store (ring path = client/<id>/<purpose>: two levels to leave the root)
+func c07SiblingIDs(rootName string) []string {
+	var out []string
+	for _, sfx := range c07SiblingSuffixes {
+		s := rootName + sfx
+		out = append(out, "../../"+s, "../../"+s+"/c", "..\\..\\"+s, "x/../../../"+s)
+	}
+	return append(out, "../../"+rootName, "../..", "..", "../../../../up", "../../other", "client_1")
+}
+
+// client ids for the v1 key store (file = <dir>/<id>_<purpose>: one level to leave the directory)
+func c07V1SiblingIDs() []string {
+	d := filepath.Base(v1Dir)
+	var out []string
+	for _, sfx := range c07SiblingSuffixes {
+		s := d + sfx
+		out = append(out, "../"+s+"/x", "../"+s, "../"+s+"/y", "..\\"+s+"\\x", "a/../../"+s+"/k")
+	}
+	return append(out, "../"+d, "../"+d+"/x", "../x")
 }
 
 func runC07(rep *vh.Report, r *vh.Rng, n int, thorough bool) {
 	c07Paths(rep, r, n*4)
-	c07Sandbox(rep, r, 6+n/20)
+	c07PathTables(rep, r, thorough)
+	c07Sandbox(rep, r, 6+n/20, thorough)
+	c07V1Tables(rep, r, thorough)
 	for i := 0; i < n; i++ {
-		c07V1History(rep, r, thorough)
+		c07V1History(rep, r, thorough, nil)
 	}
 	for i := 0; i < 1+n/10; i++ {
 		c07V2(rep, r, thorough)
@@ -98,22 +172,7 @@ func c07Paths(rep *vh.Report, r *vh.Rng, n int) {
 			if r.Bool() {
 				kp = strings.TrimPrefix(q, "/")
 			}
-			o := vh.Guard(func() vh.Outcome {
-				full, err := backend.VerifOsPath(root, kp)
-				if err != nil {
-					return vh.ErrO(err)
-				}
-				return vh.Ok([]byte(full))
-			})
-			rep.Add("ospath "+root+" "+kp, fmt.Sprintf("POsPath %s %s", vh.H([]byte(root)), vh.H([]byte(kp))), o)
-			rep.Count("ospath:" + o.Kind)
-			rep.OracleChecks++
-			if o.Kind == "ok" && root != "" && !under(root, string(o.Vals[0])) {
-				rep.Violate("v2-ospath-escape", fmt.Sprintf("osPath(root=%q, path=%q) = %q is not strictly below the root", root, kp, o.Vals[0]), fmt.Sprintf("backend.VerifOsPath(%q,%q)", root, kp))
-			}
-			if o.Kind == "panic" {
-				rep.Violate("panic", "osPath panicked: "+o.Msg, kp)
-			}
+			c07OsPathCase(rep, root, kp)
 		case 5:
 			id := genID(rep, r)
 			if r.Intn(3) == 0 {
@@ -137,64 +196,377 @@ func c07Paths(rep *vh.Report, r *vh.Rng, n int) {
 	}
 }
 
-// ---------- real directory backend in a deep sandbox whose parents are scanned ----------
-func c07Sandbox(rep *vh.Report, r *vh.Rng, n int) {
+// one real osPath evaluation: replayed on the model, and the oracle on the implementation alone:
+// EVERY accepted key path maps strictly below the root (root + separator prefix after cleaning).
+func c07OsPathCase(rep *vh.Report, root, kp string) vh.Outcome {
+	o := vh.Guard(func() vh.Outcome {
+		full, err := backend.VerifOsPath(root, kp)
+		if err != nil {
+			return vh.ErrO(err)
+		}
+		return vh.Ok([]byte(full))
+	})
+	rep.Add("ospath "+root+" "+kp, fmt.Sprintf("POsPath %s %s", vh.H([]byte(root)), vh.H([]byte(kp))), o)
+	rep.Count("ospath:" + o.Kind)
+	rep.OracleChecks++
+	// (root "" is not a configuration: Create/OpenDirectoryBackend("") fail, Join ignores the empty root)
+	if o.Kind == "ok" && root != "" {
+		full := string(o.Vals[0])
+		if full != filepath.Clean(full) || !under(root, full) {
+			rep.Violate("v2-ospath-escape", fmt.Sprintf("osPath(root=%q, path=%q) = %q is not strictly below the root (no %q prefix)", root, kp, full, strings.TrimSuffix(c07Abs(root), "/")+"/"), fmt.Sprintf("backend.VerifOsPath(%q,%q)", root, kp))
+		}
+	}
+	if o.Kind == "panic" {
+		rep.Violate("panic", "osPath panicked: "+o.Msg, kp)
+	}
+	return o
+}
+
+// boundary tables through the real osPath: for several roots, every sibling-prefix shape derived
+// from the root's own base name (quick: two roots in full, a sample for the others)
+func c07PathTables(rep *vh.Report, r *vh.Rng, thorough bool) {
+	for i, root := range []string{"/x/keys", "/a/b/ks", "/ks", "/ks/", "/ks/../k2", "/ks//x/.", "/srv/.acrakeys", "rel/keys", "/"} {
+		name := filepath.Base(c07Abs(root))
+		if name == "/" {
+			name = "root"
+		}
+		for _, kp := range c07SiblingPaths(name) {
+			if !thorough && i >= 2 && r.Intn(6) != 0 {
+				continue
+			}
+			rep.Count("ospath-table")
+			c07OsPathCase(rep, root, kp)
+		}
+	}
+}
+
+// ---------- real directory backend in a deep sandbox whose parent and sibling directories are scanned ----------
+// c07RecBackend records every key path the key store hands to the (real) backend, with the result.
+type c07BackendEvent struct {
+	op, path, path2 string
+	err             error
+	data            []byte // bytes returned by Get
+}
+
+type c07RecBackend struct {
+	backendAPI.Backend
+	events []c07BackendEvent
+}
+
+func (b *c07RecBackend) Get(path string) ([]byte, error) {
+	d, err := b.Backend.Get(path)
+	b.events = append(b.events, c07BackendEvent{"Get", path, "", err, append([]byte{}, d...)})
+	return d, err
+}
+func (b *c07RecBackend) Put(path string, data []byte) error {
+	err := b.Backend.Put(path, data)
+	b.events = append(b.events, c07BackendEvent{"Put", path, "", err, nil})
+	return err
+}
+func (b *c07RecBackend) Remove(path string) error {
+	err := b.Backend.Remove(path)
+	b.events = append(b.events, c07BackendEvent{"Remove", path, "", err, nil})
+	return err
+}
+func (b *c07RecBackend) Rename(o, n string) error {
+	err := b.Backend.Rename(o, n)
+	b.events = append(b.events, c07BackendEvent{"Rename", o, n, err, nil})
+	return err
+}
+func (b *c07RecBackend) RenameNX(o, n string) error {
+	err := b.Backend.RenameNX(o, n)
+	b.events = append(b.events, c07BackendEvent{"RenameNX", o, n, err, nil})
+	return err
+}
+
+const c07Foreign = "FOREIGN-KEY-RING:"
+
+// sandbox: <base>/a/b/c/d/<name> is the root; its parent also holds the sibling directories
+// <name>-old, <name>.bak, <name>2 and "other", each with a foreign file "decoy", and a file "decoy".
+type c07Sb struct {
+	base, root, name, vroot string
+	rec                     *c07RecBackend
+	seen                    int
+	snap                    map[string]string
+	hist                    []string
+	emitted                 map[string]bool // key paths already replayed on the model
+	emit                    int             // 0: do not replay, 1: replay every new key path, k: one in k
+	r                       *vh.Rng
+	dead                    bool
+}
+
+// everything below base that is not the root or below it: path -> kind+content
+func (sb *c07Sb) outside() map[string]string {
+	m := map[string]string{}
+	filepath.Walk(sb.base, func(p string, info os.FileInfo, err error) error {
+		if err != nil || p == sb.base {
+			return nil
+		}
+		if p == sb.root {
+			return filepath.SkipDir
+		}
+		rel, _ := filepath.Rel(sb.base, p)
+		if info.IsDir() {
+			m[rel] = "dir"
+		} else if info.Mode().IsRegular() {
+			d, _ := os.ReadFile(p)
+			m[rel] = fmt.Sprintf("file %d %x", info.Size(), d)
+		} else {
+			m[rel] = "special " + info.Mode().String()
+		}
+		return nil
+	})
+	return m
+}
+
+func (sb *c07Sb) restart() { sb.dead, sb.hist, sb.snap = false, nil, sb.outside() }
+
+func (sb *c07Sb) rel(s string) string { return strings.ReplaceAll(s, sb.base, "<sandbox>") }
+
+// check evaluates the confinement oracle after one operation; false once the sandbox is spoiled.
+func (sb *c07Sb) check(rep *vh.Report, what string) bool {
+	if sb.dead {
+		return false
+	}
+	sb.hist = append(sb.hist, what)
+	if len(sb.hist) > 12 {
+		sb.hist = sb.hist[len(sb.hist)-12:]
+	}
+	replay := func() string {
+		return fmt.Sprintf("directory backend rooted at <sandbox>/a/b/c/d/%s (siblings %s-old, %s.bak, %s2, other); last operations: %s", sb.name, sb.name, sb.name, sb.name, sb.rel(strings.Join(sb.hist, "; ")))
+	}
+	// (1) every key path handed to the backend by this operation
+	for _, ev := range sb.rec.events[sb.seen:] {
+		if sb.dead {
+			break // the first escaping backend call of the operation is the finding
+		}
+		refused := ev.err == backendAPI.ErrInvalidPath
+		evPaths := []string{ev.path}
+		if ev.op == "Rename" || ev.op == "RenameNX" {
+			evPaths = append(evPaths, ev.path2)
+		}
+		for _, p := range evPaths {
+			rep.OracleChecks++
+			full, err := backend.VerifOsPath(sb.root, p)
+			if err == nil && (full != filepath.Clean(full) || !under(sb.root, full)) {
+				rep.Violate("v2-ospath-escape", fmt.Sprintf("%s: key path %q handed to the backend is accepted by osPath and maps to %s, not strictly below the root", sb.rel(what), p, sb.rel(full)), replay())
+				sb.dead = true
+			}
+			// independent of osPath: the backend did not refuse a path that resolves outside the root
+			lex := filepath.Join(sb.root, strings.NewReplacer("\\", "/").Replace(p))
+			if !refused && !under(sb.root, lex) {
+				rep.Violate("v2-dir-op-outside-root", fmt.Sprintf("%s: backend.%s(%q) = %v was not refused although it resolves to %s", sb.rel(what), ev.op, p, ev.err, sb.rel(lex)), replay())
+				sb.dead = true
+			}
+			// replay on the model with a fixed virtual root of the same name
+			if k := sb.name + "\x00" + p; sb.emit > 0 && !sb.emitted[k] && (sb.emit == 1 || sb.r.Intn(sb.emit) == 0) {
+				sb.emitted[k] = true
+				rep.Count("ospath-sandbox")
+				c07OsPathCase(rep, sb.vroot, p)
+			}
+		}
+		if ev.op == "Get" && ev.err == nil && bytes.Contains(ev.data, []byte(c07Foreign)) {
+			rep.Violate("v2-dir-read-outside-root", fmt.Sprintf("%s: backend.Get(%q) returned the content of a file outside the root: %q", sb.rel(what), ev.path, ev.data), replay())
+			sb.dead = true
+		}
+	}
+	sb.seen = len(sb.rec.events)
+	// (2) parent and sibling directories: nothing created, changed or removed
+	rep.OracleChecks++
+	now := sb.outside()
+	var diff []string
+	for p, v := range now {
+		if old, ok := sb.snap[p]; !ok {
+			diff = append(diff, "created "+p)
+		} else if old != v {
+			diff = append(diff, "modified "+p)
+		}
+	}
+	for p := range sb.snap {
+		if _, ok := now[p]; !ok {
+			diff = append(diff, "removed "+p)
+		}
+	}
+	if len(diff) > 0 {
+		sort.Strings(diff)
+		rep.Violate("v2-dir-escape", fmt.Sprintf("%s changed the file system outside the root a/b/c/d/%s: %s", sb.rel(what), sb.name, strings.Join(diff, ", ")), replay())
+		sb.dead = true
+	}
+	return !sb.dead
+}
+
+func c07Sandbox(rep *vh.Report, r *vh.Rng, n int, thorough bool) {
 	top, err := os.MkdirTemp("", "vhsb")
 	if err != nil {
 		return
 	}
 	defer os.RemoveAll(top)
+	names := []string{"ks", "keys", ".acrakeys", "k"}
+	emitted := map[string]bool{}
 	for i := 0; i < n; i++ {
+		name := names[i%len(names)]
 		base := filepath.Join(top, fmt.Sprintf("s%d", i))
-		root := filepath.Join(base, "a", "b", "c", "d", "ks")
-		os.MkdirAll(filepath.Dir(root), 0o700)
+		parent := filepath.Join(base, "a", "b", "c", "d")
+		root := filepath.Join(parent, name)
+		os.MkdirAll(parent, 0o700)
+		os.WriteFile(filepath.Join(parent, "decoy"), []byte(c07Foreign+"decoy"), 0o600)
+		for _, sfx := range append([]string{}, c07SiblingSuffixes...) {
+			os.MkdirAll(filepath.Join(parent, name+sfx), 0o700)
+			os.WriteFile(filepath.Join(parent, name+sfx, "decoy"), []byte(c07Foreign+name+sfx+"/decoy"), 0o600)
+		}
+		os.MkdirAll(filepath.Join(parent, "other"), 0o700)
+		os.WriteFile(filepath.Join(parent, "other", "decoy"), []byte(c07Foreign+"other/decoy"), 0o600)
 		be, err := backend.CreateDirectoryBackend(root)
 		if err != nil {
 			continue
 		}
-		hist := []string{}
+		sb := &c07Sb{base: base, root: root, name: name, vroot: "/sb/a/b/c/d/" + name, rec: &c07RecBackend{Backend: be}, emitted: emitted, r: r}
+		sb.snap = sb.outside()
+		rep.Count("sandbox")
+
+		// --- key paths straight into the backend: sibling table (first sandbox of each name in full) + random paths
+		var paths []string
+		for _, p := range c07SiblingPaths(name) {
+			if thorough || i < len(names) || r.Intn(4) == 0 {
+				paths = append(paths, p)
+			}
+		}
 		for j := 0; j < 8; j++ {
 			p := strings.TrimPrefix(genPath(r), "/")
 			if r.Intn(3) == 0 {
 				p = []string{"../escaped", "..\\escaped", "a/../../escaped", "../../../x/y", "client/../../..", ".."}[r.Intn(6)]
 			}
-			switch r.Intn(4) {
-			case 0, 1:
-				e := be.Put(p, []byte("DATA"))
-				hist = append(hist, fmt.Sprintf("Put(%q)=%v", p, e))
-			case 2:
-				_, e := be.Get(p)
-				hist = append(hist, fmt.Sprintf("Get(%q)=%v", p, e))
-			case 3:
-				q := strings.TrimPrefix(genPath(r), "/")
+			paths = append(paths, p)
+		}
+		inside := func() {
+			if _, e := os.Stat(filepath.Join(root, "inside")); e != nil {
 				be.Put("inside", []byte("DATA"))
-				e := be.Rename("inside", q)
-				hist = append(hist, fmt.Sprintf("Rename(inside,%q)=%v", q, e))
 			}
 		}
-		// through the real v2 keystore with hostile client ids
-		suite, _ := cryptoV2.NewSCellSuite(bytes.Repeat([]byte{7}, 32), bytes.Repeat([]byte{8}, 32))
-		if ks, err := fsV2.CustomKeyStore(be, suite); err == nil {
-			s := keystoreV2.NewServerKeyStore(ks)
-			for _, id := range []string{"../..", "../../../../up", "client_1"} {
-				e := s.GenerateClientIDSymmetricKey([]byte(id))
-				hist = append(hist, fmt.Sprintf("v2.GenerateClientIDSymmetricKey(%q)=%v", id, e))
+		for _, p := range paths {
+			rep.Count("sandbox:path")
+			e := sb.rec.Put(p, []byte("DATA"))
+			if !sb.check(rep, fmt.Sprintf("Put(%q)=%v", p, e)) {
+				break
 			}
+			_, e = sb.rec.Get(p)
+			if !sb.check(rep, fmt.Sprintf("Get(%q)=%v", p, e)) {
+				break
+			}
+			inside()
+			e = sb.rec.Rename("inside", p)
+			if !sb.check(rep, fmt.Sprintf("Rename(inside,%q)=%v", p, e)) {
+				break
+			}
+			inside()
+			e = sb.rec.RenameNX("inside", p)
+			if !sb.check(rep, fmt.Sprintf("RenameNX(inside,%q)=%v", p, e)) {
+				break
+			}
+			e = sb.rec.Rename(p, "moved-in")
+			if !sb.check(rep, fmt.Sprintf("Rename(%q,moved-in)=%v", p, e)) {
+				break
+			}
+			e = sb.rec.Remove(p)
+			if !sb.check(rep, fmt.Sprintf("Remove(%q)=%v", p, e)) {
+				break
+			}
+		}
+
+		// --- through the real v2 key store: key-ring paths and client ids into every kind of entry point
+		suite, _ := cryptoV2.NewSCellSuite(bytes.Repeat([]byte{7}, 32), bytes.Repeat([]byte{8}, 32))
+		ks, err := fsV2.CustomKeyStore(sb.rec, suite)
+		if err == nil {
+			// (a sandbox spoiled by the backend phase starts over: the key store phase reports its own first escape)
+			sb.restart()
+			// key paths the key store derives from ring paths / client ids are replayed on the model
+			sb.emit = 6
+			if thorough || i == 0 {
+				sb.emit = 1
+			}
+			vh.StartTape(r)
+			c07SandboxKeyStore(rep, r, sb, ks, suite, thorough || i < len(names))
+			vh.StopTape()
 		}
 		be.Close()
-		rep.Count("sandbox")
-		rep.OracleChecks++
-		filepath.Walk(base, func(p string, info os.FileInfo, err error) error {
-			if err != nil || p == base {
-				return nil
+	}
+}
+
+func c07Err(f func() error) (res string) {
+	defer func() {
+		if x := recover(); x != nil {
+			res = fmt.Sprintf("PANIC %v", x)
+		}
+	}()
+	if err := f(); err != nil {
+		return "error(" + err.Error() + ")"
+	}
+	return "ok"
+}
+
+func c07SandboxKeyStore(rep *vh.Report, r *vh.Rng, sb *c07Sb, ks apiV2.MutableKeyStore, suite *cryptoV2.KeyStoreSuite, full bool) {
+	s := keystoreV2.NewServerKeyStore(ks)
+	bk, _ := keystoreV2.NewKeyBackuper("", "", s)
+	step := func(what string, f func() error) bool {
+		res := c07Err(f)
+		if strings.HasPrefix(res, "PANIC") {
+			rep.Violate("panic", "v2 key store operation panicked: "+what+" "+res, what)
+		}
+		return sb.check(rep, what+"="+res)
+	}
+	// key-ring paths: open for writing (creates), open, export
+	for _, p := range c07SiblingPaths(sb.name) {
+		if strings.HasSuffix(p, ".keyring") || (!full && r.Intn(4) != 0) {
+			continue
+		}
+		rep.Count("sandbox:ringpath")
+		ok := step(fmt.Sprintf("v2.OpenKeyRingRW(%q).AddKey", p), func() error {
+			ring, err := ks.OpenKeyRingRW(p)
+			if err != nil {
+				return err
 			}
-			if !(p == root || strings.HasPrefix(p, root+"/") || strings.HasPrefix(root, p+"/")) {
-				rel, _ := filepath.Rel(base, p)
-				rep.Violate("v2-dir-escape", "directory backend rooted at a/b/c/d/ks created "+rel+" outside its root", strings.Join(hist, "; "))
-				return filepath.SkipDir
-			}
-			return nil
-		})
+			_, err = ring.AddKey(apiV2.KeyDescription{ValidSince: time.Unix(0, 0), ValidUntil: time.Unix(4000000000, 0), Data: []apiV2.KeyData{{Format: apiV2.ThemisSymmetricKeyFormat, SymmetricKey: bytes.Repeat([]byte{9}, 32)}}})
+			return err
+		}) &&
+			step(fmt.Sprintf("v2.OpenKeyRing(%q)", p), func() error { _, err := ks.OpenKeyRing(p); return err }) &&
+			step(fmt.Sprintf("v2.ExportKeyRings([%q])", p), func() error {
+				_, err := ks.ExportKeyRings([]string{p}, suite, keystore.ExportPrivateKeys)
+				return err
+			})
+		if !ok {
+			break
+		}
+	}
+	// client ids: generate / read / export / destroy
+	sb.restart()
+	for _, ids := range c07SiblingIDs(sb.name) {
+		if !full && r.Intn(3) != 0 {
+			continue
+		}
+		rep.Count("sandbox:clientid")
+		id := []byte(ids)
+		ok := step(fmt.Sprintf("v2.GenerateClientIDSymmetricKey(%q)", ids), func() error { return s.GenerateClientIDSymmetricKey(id) }) &&
+			step(fmt.Sprintf("v2.GenerateHmacKey(%q)", ids), func() error { return s.GenerateHmacKey(id) }) &&
+			step(fmt.Sprintf("v2.GenerateDataEncryptionKeys(%q)", ids), func() error { return s.GenerateDataEncryptionKeys(id) }) &&
+			step(fmt.Sprintf("v2.GetClientIDSymmetricKey(%q)", ids), func() error { _, err := s.GetClientIDSymmetricKey(id); return err }) &&
+			step(fmt.Sprintf("v2.GetHMACSecretKey(%q)", ids), func() error { _, err := s.GetHMACSecretKey(id); return err }) &&
+			step(fmt.Sprintf("v2.GetServerDecryptionPrivateKey(%q)", ids), func() error { _, err := s.GetServerDecryptionPrivateKey(id); return err }) &&
+			step(fmt.Sprintf("v2.GetClientIDEncryptionPublicKey(%q)", ids), func() error { _, err := s.GetClientIDEncryptionPublicKey(id); return err }) &&
+			step(fmt.Sprintf("v2.KeyBackuper.Export(symmetric+search+storage of %q)", ids), func() error {
+				var firstErr error
+				for _, kind := range []string{keystore.KeySymmetric, keystore.KeySearch, keystore.KeyStoragePrivate} {
+					if _, err := bk.Export([]keystore.ExportID{{KeyKind: kind, ContextID: id}}, keystore.ExportPrivateKeys); err != nil && firstErr == nil {
+						firstErr = err
+					}
+				}
+				return firstErr
+			}) &&
+			step(fmt.Sprintf("v2.DestroyClientIDSymmetricKey(%q)", ids), func() error { return s.DestroyClientIDSymmetricKey(id) }) &&
+			step(fmt.Sprintf("v2.DestroyHmacSecretKey(%q)", ids), func() error { return s.DestroyHmacSecretKey(id) }) &&
+			step(fmt.Sprintf("v2.DestroyClientIDEncryptionKeyPair(%q)", ids), func() error { return s.DestroyClientIDEncryptionKeyPair(id) })
+		if !ok {
+			return
+		}
 	}
 }
 
@@ -225,7 +597,83 @@ type v1secret struct {
 	val      []byte
 }
 
-func c07V1History(rep *vh.Report, r *vh.Rng, thorough bool) {
+// one step of a scripted v1 history (op codes as in the random choice below)
+type c07V1Step struct {
+	op int
+	id string
+}
+
+// v1 boundary table: every sibling-prefix id of the key directory into every id-taking entry point.
+// generate/read are replayed on the model (V1Hist); destroy/export run under the confinement oracle.
+func c07V1Tables(rep *vh.Report, r *vh.Rng, thorough bool) {
+	ids := c07V1SiblingIDs()
+	for i, id := range ids {
+		if !thorough && i%5 > 2 && r.Intn(2) == 0 {
+			continue
+		}
+		rep.Count("v1-table-id")
+		var script []c07V1Step
+		script = append(script, c07V1Step{0, goodIDs[0]})
+		for _, op := range []int{0, 1, 2, 3, 4, 5, 6} {
+			script = append(script, c07V1Step{op, id})
+		}
+		c07V1History(rep, r, false, script)
+	}
+	// destroy / export (not part of the replayed history language): every path handed to Storage is confined
+	m := vhks.NewMemFS()
+	master := r.Bytes(32)
+	rig, err := newV1Rig(r, master, m, 1000)
+	if err != nil {
+		return
+	}
+	defer vh.StopTape()
+	rig.ks.GenerateClientIDSymmetricKey([]byte(goodIDs[0]))
+	enc, _ := keystore.NewSCellKeyEncryptor(master)
+	bk, _ := filesystem.NewKeyBackuper(v1Dir, "", m, enc, rig.ks)
+	for _, id := range append(ids, hostileIDs...) {
+		idb := []byte(id)
+		steps := []struct {
+			what string
+			f    func() error
+		}{
+			{"DestroyClientIDSymmetricKey", func() error { return rig.ks.DestroyClientIDSymmetricKey(idb) }},
+			{"DestroyHmacSecretKey", func() error { return rig.ks.DestroyHmacSecretKey(idb) }},
+			{"DestroyClientIDEncryptionKeyPair", func() error { return rig.ks.DestroyClientIDEncryptionKeyPair(idb) }},
+			{"DestroyRotatedClientIDSymmetricKey", func() error { return rig.ks.DestroyRotatedClientIDSymmetricKey(idb, 1) }},
+			{"KeyBackuper.Export", func() error {
+				var first error
+				for _, kind := range []string{keystore.KeySymmetric, keystore.KeySearch, keystore.KeyStoragePrivate, keystore.KeyStoragePublic} {
+					if _, err := bk.Export([]keystore.ExportID{{KeyKind: kind, ContextID: idb}}, keystore.ExportPrivateKeys); err != nil && first == nil {
+						first = err
+					}
+				}
+				return first
+			}},
+		}
+		for _, st := range steps {
+			e0 := len(m.Events)
+			res := c07Err(st.f)
+			what := fmt.Sprintf("v1.%s(%q)=%s", st.what, id, res)
+			rep.Count("v1-table-op")
+			if strings.HasPrefix(res, "PANIC") {
+				rep.Violate("panic", "v1 key store operation panicked: "+what, what)
+			}
+			for _, e := range m.Events[e0:] {
+				for _, p := range []string{e.Path, e.Path2} {
+					if p == "" {
+						continue
+					}
+					rep.OracleChecks++
+					if c := filepath.Clean(p); !(c == v1Dir || under(v1Dir, c)) {
+						rep.Violate("v1-path-escape", fmt.Sprintf("%s: v1 %s touched %q (= %s), outside %s", what, e.Op, p, c, v1Dir), what)
+					}
+				}
+			}
+		}
+	}
+}
+
+func c07V1History(rep *vh.Report, r *vh.Rng, thorough bool, script []c07V1Step) {
 	master := r.Bytes(32)
 	m := vhks.NewMemFS()
 	rig, err := newV1Rig(r, master, m, 1000)
@@ -236,6 +684,9 @@ func c07V1History(rep *vh.Report, r *vh.Rng, thorough bool) {
 	cacheKey := rig.tape.Chunks[0]
 	ids := []string{genID(rep, r), genID(rep, r), goodIDs[r.Intn(2)]}
 	nops := 4 + r.Intn(8)
+	if script != nil {
+		nops = len(script)
+	}
 	var coqOps []string
 	var vals [][]byte
 	var secrets []v1secret
@@ -243,11 +694,15 @@ func c07V1History(rep *vh.Report, r *vh.Rng, thorough bool) {
 	kindNames := []struct{ coq, hook string }{{"KStoragePriv", "storage"}, {"KStorageSym", "storage_sym"}, {"KHmac", "hmac"}, {"KStoragePub", "storage_pub"}}
 	for i := 0; i < nops; i++ {
 		id := ids[r.Intn(len(ids))]
+		opc := r.Intn(10)
+		if script != nil {
+			id, opc = script[i].id, script[i].op
+		}
 		idb := []byte(id)
 		e0, c0, t0 := len(m.Events), len(rig.cache.Adds), len(rig.tape.Chunks)
 		var o vh.Outcome
 		var coq string
-		switch r.Intn(10) {
+		switch opc {
 		case 0:
 			coq = "GenSym " + vh.H(idb)
 			o = vh.Guard(func() vh.Outcome {
